@@ -521,6 +521,76 @@ fn case(m: &mut Mon, r: &mut Rng, idx: u64) {
                 }
             });
         }
+        19 if r.bool() => {
+            // FBig::to_int / Repr::to_int: correctly rounded under the mode of the type (Repr: truncation), truthful flag.
+            // Values: k + tiny and k - tiny (digit-count estimates cannot tell them from k), fractions on / next to one
+            // half incl. the closest value below one half in odd bases, plain random digits
+            fn go<Rm: ModeTag, const B: Word>(s: &BigInt, e: i64) -> R {
+                let base = B as u32;
+                let x = q_of_parts(s, e, base);
+                let f = FBig::<Rm, B>::from_parts(ibig_of_int(s), e as isize);
+                let res = catch(|| f.to_int()).or_else(|p| fail("unexpected_panic", format!("FBig::to_int: {}", p)))?;
+                let flag = Flag::of(&res);
+                let got = int_of(match &res {
+                    Approximation::Exact(v) => v,
+                    Approximation::Inexact(v, _) => v,
+                });
+                let want = qref::round_units(&x, Rm::M);
+                ensure!(got == want, "misrounded", "FBig<{},{}>::to_int({}*{}^{}) = {} want {}", Rm::M.name(), base, s, base, e, got, want);
+                ensure!((flag == Flag::Exact) == x.is_integer(), "flag", "to_int flag {:?} but the value {} an integer", flag, if x.is_integer() { "is" } else { "is not" });
+                if flag != Flag::Exact {
+                    let up = BigRational::from_integer(got.clone()) > x;
+                    ensure!((flag == Flag::AddOne) == up || flag == Flag::NoOp, "flag_sign", "to_int flag {:?} but result {} the value", flag, if up { "above" } else { "below" });
+                }
+                let rt = catch(|| f.repr().to_int()).or_else(|p| fail("unexpected_panic", format!("Repr::to_int: {}", p)))?;
+                let tv = int_of(match &rt {
+                    Approximation::Exact(v) => v,
+                    Approximation::Inexact(v, _) => v,
+                });
+                ensure!(tv == qref::round_units(&x, Mode::Zero), "misrounded", "Repr::to_int({}*{}^{}) = {} want the truncation", s, base, e, tv);
+                Ok(())
+            }
+            let (bi, mi) = (r.below(4), r.below(6));
+            let base: u32 = [2, 10, 3, 16][bi as usize];
+            let bb = BigInt::from(base);
+            let kmax = if r.bool() { 12 } else { 40 };
+            let k = 1 + r.usize(kmax);
+            let bk: BigInt = Pow::pow(&bb, k);
+            let ipmax = if r.bool() { 4 } else { 1000 };
+            let ip = BigInt::from(r.below(ipmax));
+            let tail: BigInt = match r.below(8) {
+                0 => BigInt::from(1 + r.below(3)),
+                1 => &bk - BigInt::from(1 + r.below(3)),
+                2 => &bk / 2i32,
+                3 => &bk / 2i32 + 1i32,
+                4 => (&bk / 2i32 - 1i32).max(BigInt::zero()),
+                _ => int(false, &[r.u64(), r.u64()]) % &bk,
+            };
+            let s: BigInt = (&ip * &bk + tail) * if r.bool() { -1i32 } else { 1i32 };
+            let e = -(k as i64);
+            let d = || format!("fbig_to_int base={} mode#{} x={}*{}^{}", base, mi, s, base, e);
+            let h = gen::hash_limbs((e as u64) << 8 ^ (base as u64) << 40 ^ mi << 50, &limbs_of_nat(s.magnitude())) ^ s.is_negative() as u64;
+            m.check("fbig_to_int", &format!("b{}", base), Some(h), &d, || {
+                macro_rules! disp {
+                    ($B:literal) => {
+                        match mi {
+                            0 => go::<mode::Zero, $B>(&s, e),
+                            1 => go::<mode::Away, $B>(&s, e),
+                            2 => go::<mode::Up, $B>(&s, e),
+                            3 => go::<mode::Down, $B>(&s, e),
+                            4 => go::<mode::HalfEven, $B>(&s, e),
+                            _ => go::<mode::HalfAway, $B>(&s, e),
+                        }
+                    };
+                }
+                match base {
+                    2 => disp!(2),
+                    10 => disp!(10),
+                    16 => disp!(16),
+                    _ => disp!(3),
+                }
+            });
+        }
         19 | 20 => {
             // floats <-> integers
             let sl = gen::small_mag(r);
@@ -639,7 +709,7 @@ fn main() {
         thorough_cases: 6_000_000,
         rule: "Every primitive width/sign at MIN/MAX/+-1 around them and random; integers 2^k + delta for k around 24/53/64/128/1024 and delta in {0, +-1, +-half-ulp, +-half-ulp+-1}; rationals whose quotient needs 24/25/53/54 bits incl. exact ties and one-off ties with 300-word operands, sub-subnormal and overflowing ratios, hardware-checkable n/d < 2^53; f32/f64 inputs incl. NaN, +-inf, -0.0, subnormals; floats of base 2/10/16/3 with exponents around the overflow/underflow thresholds under all six modes; thorough additionally decodes and re-encodes all 2^32 binary32 patterns (first 4096 cases). Lossy conversions are compared bit-for-bit with an independent IEEE reference (self-tested against hardware casts/division each run) incl. Exact/Inexact and error sign; TryFrom/From successes must carry exactly the source value.",
         assumptions: &["a TryFrom that refuses a representable value is only an error where the documentation is unambiguous (primitive<->big integer ranges, float->integer/rational); big integer -> f32/f64 TryFrom is only required to be exact when it succeeds (pinned tests refuse values above the mantissa width)", "an Inexact(NoOp) flag carries no sign claim"],
-        required: &[("prim_int", false), ("int_to_float", false), ("float_to_big", false), ("ratio_to_float", false), ("ratio_to_fbig", false), ("fbig_to_float/b2", false), ("fbig_to_float/b10", false), ("fbig_int", false), ("codec", false), ("f32_exhaustive", true)],
+        required: &[("prim_int", false), ("int_to_float", false), ("float_to_big", false), ("ratio_to_float", false), ("ratio_to_fbig", false), ("fbig_to_float/b2", false), ("fbig_to_float/b10", false), ("fbig_int", false), ("fbig_to_int", false), ("codec", false), ("f32_exhaustive", true)],
         case,
         selftest: Some(selftest),
         panic_finding: None,
